@@ -171,6 +171,15 @@ def enumeration(ds):
     return res
 
 
+def safe_enumeration(ds):
+    """`enumeration`, but a failure of the real shard-list walk is returned (it is the implementation's
+    behaviour on a valid dataset, to be reported — not a harness failure)."""
+    try:
+        return enumeration(ds), None
+    except BaseException as e:  # noqa: BLE001
+        return {}, f"{type(e).__name__}: {str(e)[:200]}"
+
+
 def supports(iface: str, fmt: str, comp: str) -> bool:
     if iface == "async": return fmt in ("npz", "fb")
     if iface == "rust": return fmt == "fb" and comp in ("", "LZ4", "GZIP", "ZLIB")
